@@ -379,12 +379,34 @@ def one_case(ctx, res, i, tmp, home, reqs, pend, sessions):
                 path = os.path.join(tmp, "doc%d.%s" % (i, fmt))
                 with open(path, "wb") as fh:
                     fh.write(doc)
-                sessions.append((case, {"home": home, "tmp": tmp, "schema": sk, "assign": assign, "doc": path, "fmt": fmt}, held))
+                sessions.append(1)
+                new_session(ctx, res, case, {"home": home, "tmp": tmp, "schema": sk, "assign": assign, "doc": path, "fmt": fmt}, held, tmp, home)
     vals = H.op_values(ops) + H.schema_values(sk)
     reqs.append({"cmd": "cfg.run", "schema": C.wire_schema(sk, tmp),
                  "world": {"environ": [], "env": H.schema_env(sk, vals, tmp, key=bytes(range(32)), iv=P.tape(16), salts=P.SALTS)},
                  "ops": [H.wire_op(o) for o in ops]})
     pend.append((case, impl))
+
+
+def new_session(ctx, res, case, spec, held, tmp, home):
+    """reload in a new interpreter (run at once: the default key file of the sandbox HOME is re-created by later cases)"""
+    here = os.path.dirname(os.path.dirname(os.path.abspath(__file__)))
+    sp = os.path.join(tmp, "spec.json")
+    with open(sp, "w") as fh:
+        json.dump(spec, fh)
+    try:
+        r = subprocess.run([sys.executable, "-B", "-c", CHILD, ctx.repo, here, sp], capture_output=True, text=True, timeout=120,
+                           env=dict(os.environ, HOME=home))
+    except subprocess.TimeoutExpired:
+        res.hist["new-session-timeout"] += 1
+        return
+    res.hist["new-session"] += 1
+    if r.returncode != 0:
+        res.violate("C03:new-session-reload-failed", "loading in a new interpreter session failed: %s" % r.stderr.strip().splitlines()[-1:], case)
+        return
+    back = json.loads(r.stdout.strip().splitlines()[-1])
+    if json.dumps(norm_secrets(back), sort_keys=True, default=repr) != json.dumps(norm_secrets(json.loads(json.dumps(held, default=repr))), sort_keys=True, default=repr):
+        res.violate("C03:new-session-reload-differs", "a new session does not get the secrets back", dict(case, back=back))
 
 
 def run(ctx, n_quick=150, n_thorough=4000):
@@ -399,25 +421,6 @@ def run(ctx, n_quick=150, n_thorough=4000):
             one_case(ctx, res, i, tmp, home, reqs, pend, sessions)
     finally:
         os.chdir(cwd)
-    # new interpreter sessions
-    here = os.path.dirname(os.path.dirname(os.path.abspath(__file__)))
-    for case, spec, held in sessions:
-        sp = os.path.join(tmp, "spec.json")
-        with open(sp, "w") as fh:
-            json.dump(spec, fh)
-        try:
-            r = subprocess.run([sys.executable, "-B", "-c", CHILD, ctx.repo, here, sp], capture_output=True, text=True, timeout=120,
-                               env=dict(os.environ, HOME=home))
-        except subprocess.TimeoutExpired:
-            res.violate(None, "new-session reload timed out", case)
-            continue
-        res.hist["new-session"] += 1
-        if r.returncode != 0:
-            res.violate("C03:new-session-reload-failed", "loading in a new interpreter session failed: %s" % r.stderr.strip().splitlines()[-1:][0:1], case)
-            continue
-        back = json.loads(r.stdout.strip().splitlines()[-1])
-        if json.dumps(norm_secrets(back), sort_keys=True, default=repr) != json.dumps(norm_secrets(json.loads(json.dumps(held, default=repr))), sort_keys=True, default=repr):
-            res.violate("C03:new-session-reload-differs", "a new session does not get the secrets back", dict(case, back=back))
     replies = ctx.model(reqs)
     if replies is not None:
         for (case, impl), r in zip(pend, replies):
